@@ -46,6 +46,7 @@ func main() {
 	runSymbols()
 	runGrayRows()
 	runBinHistories()
+	runBitmapViews()
 	chk.Finish()
 }
 
@@ -230,6 +231,11 @@ func replay(path string) {
 		mc.LoadReplay(path, &c)
 		fmt.Printf("replay grey row %v (%s, %s)\n", c.Row, c.Source, c.Bin)
 		grayRowOne(l, c)
+	case "bitmapview":
+		var c bvCase
+		mc.LoadReplay(path, &c)
+		fmt.Printf("replay bitmap view %+v\n", c)
+		bvOne(l, c)
 	case "binhist":
 		var c binHistCase
 		mc.LoadReplay(path, &c)
